@@ -84,7 +84,15 @@ func parseAbsentSpec(data any) bool {
 		return true
 	}
 	if sp, ok := data.(*specSrc); ok {
-		return !sp.flat && parseAbsentSpec(sp.m)
+		if sp.flat {
+			return false
+		}
+		// an empty JSON document is an absent value for a top-level pointer (the repository's own
+		// TestTopLevelOptionalStruct documents this)
+		if mv := reflect.ValueOf(sp.m); mv.Kind() == reflect.Map && mv.Len() == 0 && sp.tag == "json" {
+			return true
+		}
+		return parseAbsentSpec(sp.m)
 	}
 	if s, ok := data.(string); ok {
 		return strings.TrimSpace(s) == ""
